@@ -11,6 +11,8 @@ from ..harness import Sub, Violation, Inconclusive, run_world, crash_is_violatio
 from ..oracles import bspl, advect
 
 PROPERTY = "C16"
+HANG_SECONDS = 400.0
+LINE_BUDGET = 1000000000
 RULE = ("(kernel) Hypothesis-generated v spaces (4-16 points, uniform cubic, or general degree 1-5 on uniform / "
         "non-uniform breaks), arbitrary distributions, polynomial-in-v profiles of degree <= p, float and complex density "
         "storage: get_rho / get_perturbed_rho with the real quadrature coefficients vs sum_j c_j int B_j (c from an "
